@@ -10,12 +10,18 @@
 //   prelabel <v> <d>   give node v an int attribute "Dist" = d on the CURRENT graph object
 //   hdist <start>      exploreGraph with GraphDistVisitor on the CURRENT graph object itself (no copy):
 //                      a history of sweeps over one Graph                 -> same output as dist
+//   dfs <start>        exploreGraph with Graph_DF_Visitor                -> expl id ...
+//   branch <s> <a> <b> exploreBranch(G, s, Edge(a,b))                     -> branch a-b ...
+//   gcopy <mode>       mode 0: copy-construct, 1: assign into a default graph, 2: assign into a used graph;
+//                      the copy becomes the current graph, the previous object is kept as "old"
+//   gold               print the labels of the kept old object (same format as dist)
 //   single <start>     singleNetwork with Graph_BF_Visitor (start -1: getVertices().at(0))
 //   decouple           decoupleIsolatedSubGraphs                  -> ncomp k / comp v.. | a-b ..
 //   reduce             reduceGraph + expandGraph                  -> nchain k / chain v v .. / expv .. / expe a-b ..
 //   sid                findStructureId<GraphDistVisitor>          -> sid <string>
 // BeadStructure commands (slots 0..15):
 //   bs_new s | bs_add s id name mass | bs_conn s a b | bs_single s | bs_equiv s t |
+//   bs_copy src dst mode (0 copy-construct, 1 copy-assign into existing dst) | bs_motifs s
 //   bs_graph s | bs_ids s | bs_sub s dst nv ids.. ne a b .. | bs_break s | bs_neigh s id
 #include <algorithm>
 #include <iostream>
@@ -28,11 +34,15 @@
 #include <unordered_map>
 #include <vector>
 
+#include <votca/csg/beadmotif.h>
+#include <votca/csg/beadmotifalgorithms.h>
+#include <votca/csg/beadmotifconnector.h>
 #include <votca/csg/beadstructure.h>
 #include <votca/csg/beadstructurealgorithms.h>
 #include <votca/tools/edge.h>
 #include <votca/tools/graph.h>
 #include <votca/tools/graph_bf_visitor.h>
+#include <votca/tools/graph_df_visitor.h>
 #include <votca/tools/graphalgorithm.h>
 #include <votca/tools/graphdistvisitor.h>
 #include <votca/tools/graphnode.h>
@@ -87,6 +97,38 @@ void printGraphLine(std::ostream &os, Graph &g) {
   os << std::endl;
 }
 
+void printLabels(std::ostream &os, Graph &g, const std::set<Index> &expl) {
+  os << "dist";
+  std::vector<Index> nolabel;
+  for (auto &p : g.getNodes()) {
+    GraphNode gn = p.second;
+    try {
+      Index d = gn.getInt("Dist");
+      os << " " << p.first << ":" << d;
+    } catch (const std::invalid_argument &) {
+      nolabel.push_back(p.first);
+    }
+  }
+  os << " | expl";
+  for (Index v : expl) os << " " << v;
+  os << " | nolabel";
+  for (Index v : nolabel) os << " " << v;
+  os << std::endl;
+}
+
+const char *motifTypeName(csg::BeadMotif::MotifType t) {
+  switch (t) {
+    case csg::BeadMotif::empty: return "empty";
+    case csg::BeadMotif::single_bead: return "single_bead";
+    case csg::BeadMotif::line: return "line";
+    case csg::BeadMotif::loop: return "loop";
+    case csg::BeadMotif::fused_ring: return "fused_ring";
+    case csg::BeadMotif::single_structure: return "single_structure";
+    case csg::BeadMotif::multiple_structures: return "multiple_structures";
+    default: return "undefined";
+  }
+}
+
 }  // namespace
 
 int main() {
@@ -94,6 +136,7 @@ int main() {
   long seq = 0;
   std::cout.precision(17);
   std::unique_ptr<Graph> G;
+  std::unique_ptr<Graph> Gold;
   std::map<int, BeadStructure> bs;
   while (std::getline(std::cin, line)) {
     ++seq;
@@ -155,6 +198,48 @@ int main() {
         std::cout << " | nolabel";
         for (Index v : nolabel) std::cout << " " << v;
         std::cout << std::endl;
+      } else if (cmd == "dfs") {
+        Index start;
+        in >> start;
+        Graph g = *G;
+        Graph_DF_Visitor gv;
+        gv.setStartingVertex(start);
+        exploreGraph(g, gv);
+        std::cout << "expl";
+        for (Index v : gv.getExploredVertices()) std::cout << " " << v;
+        std::cout << std::endl;
+      } else if (cmd == "branch") {
+        Index st, a, b;
+        in >> st >> a >> b;
+        std::set<Edge> br = exploreBranch(*G, st, Edge(a, b));
+        std::cout << "branch";
+        printEdges(std::cout, std::vector<Edge>(br.begin(), br.end()));
+        std::cout << std::endl;
+      } else if (cmd == "gcopy") {
+        int mode;
+        in >> mode;
+        std::unique_ptr<Graph> c;
+        if (mode == 0) {
+          c.reset(new Graph(*G));
+        } else if (mode == 1) {
+          c.reset(new Graph());
+          *c = *G;
+        } else {
+          std::unordered_map<Index, GraphNode> nodes;
+          nodes[1] = makeNode("X", 1.0);
+          nodes[2] = makeNode("Y", 2.0);
+          c.reset(new Graph(std::vector<Edge>{Edge(1, 2)}, nodes));
+          GraphDistVisitor gv;
+          gv.setStartingVertex(1);
+          exploreGraph(*c, gv);
+          *c = *G;
+        }
+        Gold = std::move(G);
+        G = std::move(c);
+        std::cout << "ok" << std::endl;
+      } else if (cmd == "gold") {
+        printLabels(std::cout, *Gold, std::set<Index>());
+        printGraphLine(std::cout, *Gold);
       } else if (cmd == "dist" || cmd == "bfs") {
         Index start;
         in >> start;
@@ -284,6 +369,42 @@ int main() {
         int s, t;
         in >> s >> t;
         std::cout << "equiv " << (bs.at(s).isStructureEquivalent(bs.at(t)) ? 1 : 0) << std::endl;
+      } else if (cmd == "bs_copy") {
+        int src, dst, mode;
+        in >> src >> dst >> mode;
+        if (mode == 0) {
+          BeadStructure c(bs.at(src));
+          bs.erase(dst);
+          bs.emplace(dst, c);
+        } else {
+          bs.at(dst) = bs.at(src);
+        }
+        std::cout << "ok" << std::endl;
+      } else if (cmd == "bs_motifs") {
+        int sl;
+        in >> sl;
+        // breakIntoMotifs, then breakIntoSimpleMotifs of every independent motif
+        std::vector<csg::BeadMotif> tops = csg::breakIntoMotifs<std::vector<csg::BeadMotif>>(bs.at(sl));
+        std::cout << "ntop " << tops.size() << std::endl;
+        for (csg::BeadMotif &top : tops) {
+          std::cout << "top " << motifTypeName(top.getType()) << " ids";
+          for (Index v : top.getBeadIds()) std::cout << " " << v;
+          std::cout << std::endl;
+          auto res = csg::breakIntoSimpleMotifs(top);
+          for (auto &im : res.first) {
+            Graph g = im.second.getGraph();
+            std::cout << "motif " << im.first << " " << motifTypeName(im.second.getType()) << " ids";
+            for (Index v : im.second.getBeadIds()) std::cout << " " << v;
+            std::cout << " | edges";
+            printEdges(std::cout, g.getEdges());
+            std::cout << std::endl;
+          }
+          for (const Edge &be : res.second.getBeadEdges()) {
+            Edge me = res.second.getMotifEdge(be);
+            std::cout << "conn " << be.getEndPoint1() << "-" << be.getEndPoint2() << " motifs " << me.getEndPoint1()
+                      << " " << me.getEndPoint2() << std::endl;
+          }
+        }
       } else if (cmd == "bs_graph") {
         int s;
         in >> s;
